@@ -25,7 +25,7 @@ def check(run):
     run.regenerate()
     run.lean_props(common.modules_for("C16"))
     from .. import glue_grid
-    glue_grid.corr_dispatch(run, quick)   # Lean model of the dispatcher vs the real class, op by op
+    run.attempt("corr:glue_grid.corr_dispatch", glue_grid.corr_dispatch, run, quick)   # Lean model of the dispatcher vs the real class, op by op
     rng = run.rng
     Grid = spherical.Grid
 
@@ -45,6 +45,31 @@ def check(run):
             if isinstance(o, Grid) and o is not r and r._metadata is o._metadata:
                 v("result-shares-metadata-dict", site, inp, "fresh dict", "shared with operand")
 
+    # grids of exactly the minimal size 2|s|+1 (for the operand and for the RESULT's spin weight) are valid
+    for s1 in range(-3, 4):
+        n1 = 2 * abs(s1) + 1
+        try:
+            g = Grid(np.ones((n1, n1), dtype=complex), spin_weight=s1)
+            run.gap_case("minimal-size", (s1, "construct"), "minimal")
+            for name, op, sp in (("conjugate", lambda: np.conjugate(g), -s1), ("g+g", lambda: g + g, s1), ("negative", lambda: -g, s1), ("reciprocal", lambda: np.reciprocal(g), -s1)):
+                r = op()
+                if not isinstance(r, Grid) or r.spin_weight != sp:
+                    v("wrong-spin-weight", f"Grid.{name}[minimal-size]", {"s": s1, "grid": [n1, n1]}, sp, getattr(r, "spin_weight", None))
+        except Exception as e:
+            v("supported-operation-raised", "Grid[minimal-size]", {"s": s1, "grid": [n1, n1]}, "Grid", repr(e))
+        for s2 in range(-3, 4):
+            n2 = 2 * abs(s1 + s2) + 1
+            if n2 < max(2 * abs(s1) + 1, 2 * abs(s2) + 1):
+                continue
+            try:
+                ga = Grid(np.ones((n2, n2), dtype=complex), spin_weight=s1)
+                gb = Grid(np.full((n2, n2), 2.0 + 0j), spin_weight=s2)
+                r = ga * gb
+                run.gap_case("minimal-size", (s1, s2, "product"), "minimal-result")
+                if not isinstance(r, Grid) or r.spin_weight != s1 + s2:
+                    v("wrong-spin-weight", "Grid.multiply[minimal-size result]", {"s1": s1, "s2": s2, "grid": [n2, n2]}, s1 + s2, getattr(r, "spin_weight", None))
+            except Exception as e:
+                v("supported-operation-raised", "Grid.multiply[minimal-size result]", {"s1": s1, "s2": s2, "grid": [n2, n2]}, f"Grid spin {s1 + s2}", repr(e))
     spins = list(range(-3, 4))
     pairs = list(itertools.product(spins, spins))
     if quick:
@@ -53,8 +78,12 @@ def check(run):
         for (s1, s2) in pairs:
             nt = 2 * max(abs(s1), abs(s2), abs(s1 + s2), abs(s1 - s2)) + 1 + rng.randint(0, 2)
             nph = nt + rng.randint(0, 2)
-            g1 = mkgrid(rng, s1, lead, nt, nph, extra="meta1")
-            g2 = mkgrid(rng, s2, lead if rng.random() < 0.7 else (), nt, nph)
+            try:
+                g1 = mkgrid(rng, s1, lead, nt, nph, extra="meta1")
+                g2 = mkgrid(rng, s2, lead if rng.random() < 0.7 else (), nt, nph)
+            except Exception as e:
+                v("supported-operation-raised", "Grid.__new__", {"s1": s1, "s2": s2, "grid": [nt, nph]}, "Grid", repr(e))
+                continue
             a1, a2 = g1.view(np.ndarray).copy(), g2.view(np.ndarray).copy()
             inp = {"s1": s1, "s2": s2, "lead": list(lead), "grid": [nt, nph]}
             binops = [("multiply", np.multiply, s1 + s2), ("divide", np.divide, s1 - s2), ("true_divide", np.true_divide, s1 - s2)]
